@@ -102,6 +102,10 @@ def run(prop, tier, seed, replay=None):
     if mc["cases"]:
         from . import mcspec
         drift = mcspec.compare_predictions(cases, tpath)
+    dtv = None
+    if prop in ("C07", "C08", "C09", "C10", "C19") and not replay:
+        # impl -> design spec: every timer result / next_expiry / firing order against TimersOps
+        dtv = common.validate_timers_design(tpath, "%s-%s-%d" % (prop, tier, seed))
     nev = verdict["lines"]
     samples = [run_list[i] for i in range(0, len(run_list), max(1, len(run_list) // 3))][:3]
     coverage = {
@@ -115,7 +119,8 @@ def run(prop, tier, seed, replay=None):
         "trace_events_validated": nev,
         "spec_generated_cases": len(mc["cases"]),
         "drift_events": drift[:20],
-        "drift_count": len(drift),
+        "drift_count": len(drift) + (dtv["ndrift"] if dtv else 0),
+        "design_trace_validation": dtv,
         "tlc_specs": mc["specs"],
         "exhaustive": False,
         "explanation": "TLC explored the design spec(s) exhaustively within the config bounds checking the abstract monitor's verdict as an invariant; every exported behaviour and every random program was executed on the real code and the recorded trace validated line by line against SeqAbs by TLC (SeqTrace)",
@@ -134,6 +139,18 @@ def run(prop, tier, seed, replay=None):
         coverage["tlc_specs"] = coverage["tlc_specs"] + q["coverage"]["tlc_specs"]
         coverage["queue_part"] = {k: q["coverage"][k] for k in ("trace_records", "drift_count", "rule")}
         extra_summary = "; queue: " + q["summary"]
+        if tier == "thorough":
+            # execution substrate only: the same model-generated programs under AddressSanitizer
+            asan = {"available": False, "reports": 0}
+            ab = common.build_asan("seqdrv")
+            if ab:
+                asan["available"] = True
+                for (idx, msg) in common.run_asan(ab, cpath, len(run_list)):
+                    case = run_list[idx] if idx < len(run_list) else {}
+                    path = save_replay(prop, seed, len(viols), case, msg, tpath, 0)
+                    viols.append({"why": "AddressSanitizer: " + msg, "replay": path, "sig": "asan"})
+                    asan["reports"] += 1
+            coverage["asan"] = asan
     return {
         "level": "model_checking",
         "coverage": coverage,
